@@ -155,16 +155,29 @@ def rule_r2(rep, repo):
     if d is None:
         raise AnalysisError("unrecognised idiom: generate_orders_horton_order has no type_ord dispatch")
     chain, else_body, node = d
-    rowlist = None
-    for s in strip_docstring(f.node.body):
-        if isinstance(s, ast.Assign) and isinstance(s.value, ast.List) and not s.value.elts:
-            rowlist = norm(s.targets[0])
+    # the row accumulator is the name the function finally converts: `X = np.array(X, ...); return X`
+    # or `return np.array(X, ...)`
+    top = strip_docstring(f.node.body)
+    final = [s for s in top if isinstance(s, ast.Return)]
+    rowlist, final_ok = None, False
+
+    def conv_arg(v):
+        if isinstance(v, ast.Call) and norm(v.func) in ("np.array", "np.asarray") and v.args and isinstance(v.args[0], ast.Name):
+            return v.args[0].id
+        return None
+    if final and final[-1].value is not None:
+        rv = final[-1].value
+        if conv_arg(rv):
+            rowlist, final_ok = conv_arg(rv), True
+        elif isinstance(rv, ast.Name):
+            for s in top:
+                if isinstance(s, ast.Assign) and norm(s.targets[0]) == rv.id and conv_arg(s.value):
+                    rowlist, final_ok = conv_arg(s.value), conv_arg(s.value) == rv.id
     if rowlist is None:
-        raise AnalysisError("unrecognised idiom: no row accumulator `orders = []`")
-    final = [s for s in strip_docstring(f.node.body) if isinstance(s, ast.Return)]
-    final_ok = bool(final) and norm(final[-1].value) == rowlist and any(
-        isinstance(s, ast.Assign) and norm(s.targets[0]) == rowlist and norm(s.value).startswith(f"np.array({rowlist}")
-        for s in strip_docstring(f.node.body))
+        rowlist = next((norm(s.targets[0]) for s in top if isinstance(s, ast.Assign) and isinstance(s.value, ast.List)
+                        and not s.value.elts), None)
+    if rowlist is None:
+        raise AnalysisError("unrecognised idiom: generate_orders_horton_order has no row accumulator converted by np.array(...)")
     widths = {"pure": 2, "pure-radial": 3}
     for key, body in chain:
         if key == "cartesian":
@@ -222,12 +235,25 @@ def _check_rows(rep, repo, cons, body, rowlist, width, final_ok, role):
                 and isinstance(s.value, ast.ListComp):
             rows.append((s, [s.value.elt]))
             continue
+        # literal rows: `orders = [[a, b], ...]`
+        if isinstance(s, ast.Assign) and norm(s.targets[0]) == rowlist and isinstance(s.value, ast.List):
+            if s.value.elts:
+                rows.append((s, list(s.value.elts)))
+            continue
         for x in ast.walk(s):
             if isinstance(x, ast.Call) and isinstance(x.func, ast.Attribute) and x.func.attr == "append" and \
                     norm(x.func.value) == rowlist and x.args:
                 rows.append((x, [x.args[0]]))
+            if isinstance(x, ast.Call) and isinstance(x.func, ast.Attribute) and x.func.attr == "extend" and \
+                    norm(x.func.value) == rowlist and x.args and isinstance(x.args[0], (ast.List, ast.Tuple)):
+                rows.append((x, list(x.args[0].elts)))
+            if isinstance(x, ast.Call) and isinstance(x.func, ast.Attribute) and x.func.attr == "extend" and \
+                    norm(x.func.value) == rowlist and x.args and isinstance(x.args[0], (ast.ListComp, ast.GeneratorExp)):
+                rows.append((x, [x.args[0].elt]))
             if isinstance(x, ast.AugAssign) and norm(x.target) == rowlist and isinstance(x.value, ast.List):
                 rows.append((x, list(x.value.elts)))
+            if isinstance(x, ast.AugAssign) and norm(x.target) == rowlist and isinstance(x.value, ast.ListComp) and x is not s:
+                rows.append((x, [x.value.elt]))
             if isinstance(x, ast.Return):
                 early.append(x)
     where = repo.rel("utils", body[0])
